@@ -41,6 +41,19 @@ def path_of(t):
     return ".".join(reversed(parts))
 
 
+def raw_children(x):
+    """operands whose content is (part of) the value of x; iterator sources of map/fold only contribute their
+    length, not their content"""
+    op = x.op
+    if op == "mapped":
+        return (x.args[1],)
+    if op == "fold":
+        return (x.args[0], x.args[1])
+    if op in ("len", "len_iter", "iter_empty"):
+        return ()
+    return x.args
+
+
 def atoms(t, stop_ops=(), seen=None):
     """set of atoms reachable from t: ('param', path) ('rng', kind, site, what) ('bytes', hex) ('fn', name).
     Traversal does not descend below ops in stop_ops (used by raw())."""
@@ -84,7 +97,7 @@ def atoms(t, stop_ops=(), seen=None):
             out.add(("loop", str(x.args[2])))
         if op == "undef":
             continue
-        stack.extend(x.args)
+        stack.extend(raw_children(x) if stop_ops else x.args)
     return out
 
 
